@@ -1,7 +1,7 @@
 (* C05: the monitor of Run/C05.v accepts every trace the model produces (and the diff of the model with
    itself is empty). *)
 From SC Require Import Lib.Prelude Lib.Int Lib.Host Model.Math Proofs.Math Model.Vault
-  Proofs.VaultSpec Proofs.VaultToken Proofs.VaultOps Proofs.VaultRate Proofs.VaultTrips Run.C05 Proofs.C05Tables.
+  Proofs.VaultSpec Proofs.VaultToken Proofs.VaultOps Proofs.VaultRate Proofs.VaultTrips Run.C05 Proofs.C05Tables Proofs.VaultAllow.
 From Coq Require Import ZifyBool.
 
 (* the owner whose balance a getter reads lies in the observed universe *)
@@ -36,9 +36,9 @@ Lemma tab2_allowance_same n s s' (tk : state -> token) :
   tab2 n (allowance (now s') (tk s')) = tab2 n (allowance (now s) (tk s)).
 Proof. intros Hn Ha. rewrite Hn. apply tab2_ext. intros. apply allowance_ext. exact Ha. Qed.
 
-Lemma deposit_like_model n s s' au evs a sh r f o :
+Lemma deposit_like_model c n s s' au evs a sh r f o :
   deposit_effect s s' a sh r f o -> auth_full au o = true -> evs = [(0%N, o, f, r, a, sh)] ->
-  deposit_like n (observe n s) (observe n s') au evs a sh r f o = true.
+  deposit_like n (observe c n s) (observe c n s') au evs a sh r f o = true.
 Proof.
   intros He Hau ->. unfold deposit_like. rewrite Hau, eqb_events_refl, andb_true_r. cbn [andb observe o_ab o_sb o_sup o_aal o_sal].
   andb_split.
@@ -56,10 +56,10 @@ Proof.
     + apply (de_sallow _ _ _ _ _ _ _ He).
 Qed.
 
-Lemma withdraw_like_model n s s' au evs a sh r ow o :
+Lemma withdraw_like_model c n s s' au evs a sh r ow o :
   withdraw_effect s s' a sh r ow o -> auth_root au o = true -> evs = [(1%N, o, r, ow, a, sh)] ->
   (ow < n)%N -> sh <= bal (share s) ow -> a <= total_assets s ->
-  withdraw_like n (observe n s) (observe n s') au evs a sh r ow o = true.
+  withdraw_like n (observe c n s) (observe c n s') au evs a sh r ow o = true.
 Proof.
   intros He Hau -> Hn Hsh Ha. unfold withdraw_like. rewrite Hau, eqb_events_refl, andb_true_r. cbn [andb observe o_ab o_sb o_sup o_ta o_aal o_sal].
   andb_split.
@@ -82,13 +82,13 @@ Qed.
 (* ---------- mon_call on one model step ---------- *)
 Local Opaque deposit_like withdraw_like.
 Definition model_item (c : cfg) (n : N) (s : state) (cl : call) : item :=
-  (cl, pre_values c s cl, snd (step c s cl), observe n (fst (step c s cl))).
+  (cl, pre_values c s cl, snd (step c s cl), observe c n (fst (step c s cl))).
 
-Lemma obs_same_bal n s s' : bal (asset s') = bal (asset s) -> o_ab (observe n s') = o_ab (observe n s).
+Lemma obs_same_bal c n s s' : bal (asset s') = bal (asset s) -> o_ab (observe c n s') = o_ab (observe c n s).
 Proof. intros H. cbn [observe o_ab]. rewrite H. reflexivity. Qed.
 
 Lemma mon_call_model c n s cl : wf_cfg c -> (0 < n)%N -> Inv s -> wf_call_obs n cl = true ->
-  mon_call c n (observe n s) (model_item c n s cl) = true.
+  mon_call c n (observe c n s) (model_item c n s cl) = true.
 Proof.
   intros Hc Hn Hi Hwf. unfold wf_call_obs in Hwf. apply andb_prop in Hwf as [Hwf Hown].
   destruct (wf_call_parts cl Hwf) as (Hnv & Hr).
@@ -235,13 +235,15 @@ Lemma wf_call_obs_wf n cl : wf_call_obs n cl = true -> wf_call cl = true.
 Proof. unfold wf_call_obs. intros H. apply andb_prop in H as [H _]. exact H. Qed.
 
 Lemma mon_step_model c n s cl : wf_cfg c -> (0 < n)%N -> Inv s -> wf_call_obs n cl = true ->
-  mon_step c n (observe n s) (model_item c n s cl) = true.
+  mon_step c n (observe c n s) (model_item c n s cl) = true.
 Proof.
   intros Hc Hn Hi Hwf. pose proof (wf_call_obs_wf n cl Hwf) as Hw.
   pose proof (mon_call_model c n s cl Hc Hn Hi Hwf) as Hcall.
   destruct (step_inv_rate c s cl Hc Hi Hw) as (Hi' & Hrate).
   unfold mon_step. unfold model_item in *. rewrite Hcall, andb_true_r. clear Hcall.
   andb_split.
+  - cbn [observe o_dec]. apply Z.eqb_refl.
+  - reflexivity.
   - cbn [observe o_ta o_ab]. change (map (bal (asset (fst (step c s cl)))) (univ n)) with (tab1 n (bal (asset (fst (step c s cl))))).
     rewrite fn1_tab1 by (unfold V; exact Hn). unfold total_assets. apply Z.eqb_refl.
   - unfold step. destruct (step_res c s cl) as [[s' o]|]; cbn [fst snd is_fail]; [reflexivity|apply eqb_obs_refl].
@@ -252,15 +254,112 @@ Proof.
   - unfold rate_le. cbn [observe o_ta o_sup]. unfold rate_le_states in Hrate. fold (P_of c). lia.
 Qed.
 
-Lemma mon_from_model c n : wf_cfg c -> (0 < n)%N -> forall cs s i, Inv s ->
-  forallb (wf_call_obs n) cs = true -> mon_from c n (observe n s) (model_items c n s cs) i = 0%N.
+(* ---------- the allowance-ageing clause and the ghost state of the monitor ---------- *)
+Record Ghost (c : cfg) (n : N) (s : state) (st : mstate) : Prop := {
+  g_obs : m_obs st = observe c n s;
+  g_now : m_now st = now s;
+  g_alu : forall a b, m_alu st a b = lu_of (asset s) a b;
+  g_slu : forall a b, m_slu st a b = lu_of (share s) a b
+}.
+
+Lemma allowance_aged t nw k o sp : 0 <= k ->
+  allowance (nw + k) t o sp = if snd (allow t o sp) <? nw + k then 0 else allowance nw t o sp.
 Proof.
-  intros Hc Hn. induction cs as [|cl cs IH]; intros s i Hi Hwf; [reflexivity|].
+  intros Hk. unfold allowance, allowance_data.
+  destruct (snd (allow t o sp) <? nw + k) eqn:E1; [reflexivity|].
+  destruct (snd (allow t o sp) <? nw) eqn:E2; [lia|reflexivity].
+Qed.
+
+Lemma tab2_aged n lu nw k t : 0 <= k -> (forall a b, lu a b = lu_of t a b) ->
+  tab2 n (allowance (nw + k) t) = tab2 n (aged lu (nw + k) (fn2 (tab2 n (allowance nw t)))).
+Proof.
+  intros Hk Hlu. apply tab2_ext. intros o sp Ho Hs. unfold aged. rewrite fn2_tab2 by assumption.
+  rewrite Hlu. unfold lu_of. apply allowance_aged; exact Hk.
+Qed.
+
+Lemma tab2_approved n nw t o sp a l : 0 <= a -> (0 < a -> nw <= l) ->
+  tab2 n (allowance nw (set_allow t (upd2 (allow t) o sp (a, l)))) = tab2 n (upd2z (fn2 (tab2 n (allowance nw t))) o sp a).
+Proof.
+  intros Ha Hl. apply tab2_ext. intros x y Hx Hy. unfold upd2z, allowance, allowance_data. cbn [allow set_allow]. unfold upd2.
+  destruct (N.eqb x o && N.eqb y sp) eqn:E.
+  - cbn [fst snd]. destruct (l <? nw) eqn:El; cbn [fst]; lia.
+  - rewrite fn2_tab2 by assumption. reflexivity.
+Qed.
+
+Lemma mon_allow_model c n s st cl : Ghost c n s st -> mon_allow n st (model_item c n s cl) = true.
+Proof.
+  intros [Hobs Hnow Halu Hslu]. unfold mon_allow, model_item. rewrite Hobs, Hnow.
+  unfold step. destruct (step_res c s cl) as [[s' [v evs]]|] eqn:E; cbn [fst snd]; [|reflexivity].
+  destruct cl as [a r f op au|x r f op au|a r ow op au|x r ow op au|f t a au|t a|ow sp a l au|f t a au|sp f t a au|ow sp a l au|k|q];
+    cbn [step_res] in E; try reflexivity.
+  - (* ATransfer *)
+    unfold lift_tok in E. bsplit E t1 E1. inversion E; subst. apply tok_transfer_ok in E1. destruct E1 as (_ & _ & ->).
+    apply eqb_llz_refl.
+  - (* AMint *)
+    unfold lift_tok in E. bsplit E t1 E1. inversion E; subst. apply update_mint in E1. destruct E1 as (_ & _ & ->).
+    apply eqb_llz_refl.
+  - (* AApprove *)
+    unfold lift_tok, tok_approve in E. bsplit E t1 E1. inversion E; subst. bsplit E1 u Eg. apply guard_ok in Eg.
+    apply set_allowance_ok in E1. destruct E1 as (Ha & _ & Hl & ->). rewrite Eg. cbn [andb].
+    apply eqb_llz_of_eq. cbn [observe o_aal set_asset asset now].
+    change (map (fun o => map (allowance (now s) (set_allow (asset s) (upd2 (allow (asset s)) ow sp (a, l))) o) (univ n)) (univ n))
+      with (tab2 n (allowance (now s) (set_allow (asset s) (upd2 (allow (asset s)) ow sp (a, l))))).
+    change (map (fun o => map (allowance (now s) (asset s) o) (univ n)) (univ n)) with (tab2 n (allowance (now s) (asset s))).
+    apply tab2_approved; auto.
+  - (* STransfer *)
+    unfold lift_tok in E. bsplit E t1 E1. inversion E; subst. apply tok_transfer_ok in E1. destruct E1 as (_ & _ & ->).
+    apply eqb_llz_refl.
+  - (* STransferFrom *)
+    unfold lift_tok in E. bsplit E t1 E1. inversion E; subst.
+    apply tok_transfer_from_ok in E1. destruct E1 as (_ & _ & t2 & Esp & ->).
+    destruct (spend_allowance_ok _ _ _ _ _ _ _ Esp) as (_ & _ & _ & Hal & _ & _).
+    apply eqb_llz_of_eq. cbn [observe o_sal set_share share now].
+    change (map (fun o => map (allowance (now s) (share s) o) (univ n)) (univ n)) with (tab2 n (allowance (now s) (share s))).
+    match goal with |- map (fun o => map (allowance (now s) ?T o) (univ n)) (univ n) = _ =>
+      change (map (fun o => map (allowance (now s) T o) (univ n)) (univ n)) with (tab2 n (allowance (now s) T)) end.
+    apply tab2_ext. intros x y Hx Hy. rewrite (allowance_ext (now s) _ t2) by reflexivity. rewrite Hal.
+    unfold upd2z. destruct (N.eqb x f && N.eqb y sp) eqn:Exy.
+    + assert (x = f /\ y = sp) as [-> ->] by (apply andb_prop in Exy as [Ea Eb]; apply N.eqb_eq in Ea, Eb; auto).
+      rewrite fn2_tab2 by assumption. reflexivity.
+    + rewrite fn2_tab2 by assumption. reflexivity.
+  - (* SApprove *)
+    unfold lift_tok, tok_approve in E. bsplit E t1 E1. inversion E; subst. bsplit E1 u Eg. apply guard_ok in Eg.
+    apply set_allowance_ok in E1. destruct E1 as (Ha & _ & Hl & ->). rewrite Eg. cbn [andb].
+    apply eqb_llz_of_eq. cbn [observe o_sal set_share share now].
+    change (map (fun o => map (allowance (now s) (set_allow (share s) (upd2 (allow (share s)) ow sp (a, l))) o) (univ n)) (univ n))
+      with (tab2 n (allowance (now s) (set_allow (share s) (upd2 (allow (share s)) ow sp (a, l))))).
+    change (map (fun o => map (allowance (now s) (share s) o) (univ n)) (univ n)) with (tab2 n (allowance (now s) (share s))).
+    apply tab2_approved; auto.
+  - (* Advance *)
+    bsplit E u Eg. apply guard_ok in Eg. inversion E; subst. assert (Hk : 0 <= k) by lia.
+    assert (Ek : (0 <=? k) = true) by lia. rewrite Ek. cbn [andb observe o_aal o_sal now asset share].
+    apply andb_true_intro. split; apply eqb_llz_of_eq.
+    + exact (tab2_aged n (m_alu st) (now s) k (asset s) Hk Halu).
+    + exact (tab2_aged n (m_slu st) (now s) k (share s) Hk Hslu).
+Qed.
+
+Lemma ghost_next c n s st cl : Ghost c n s st -> Ghost c n (fst (step c s cl)) (mnext st (model_item c n s cl)).
+Proof.
+  intros [Hobs Hnow Halu Hslu]. unfold mnext, model_item. unfold step.
+  destruct (step_res c s cl) as [[s' [v evs]]|] eqn:E; cbn [fst snd].
+  - destruct (step_res_frame c s cl s' (v, evs) E) as (Fn & Fa & Fs).
+    destruct cl; constructor; cbn [m_obs m_now m_alu m_slu]; try reflexivity;
+      try (rewrite Fn, Hnow; reflexivity); intros x y; rewrite ?Fa, ?Fs; auto;
+      unfold upd2z; rewrite ?Halu, ?Hslu; reflexivity.
+  - constructor; cbn [m_obs m_now m_alu m_slu]; auto.
+Qed.
+
+Lemma mon_from_model c n : wf_cfg c -> (0 < n)%N -> forall cs s st i, Inv s -> Ghost c n s st ->
+  forallb (wf_call_obs n) cs = true -> mon_from c n st (model_items c n s cs) i = 0%N.
+Proof.
+  intros Hc Hn. induction cs as [|cl cs IH]; intros s st i Hi Hg Hwf; [reflexivity|].
   cbn [forallb] in Hwf. apply andb_prop in Hwf as [Hw Hws].
   cbn [model_items mon_from].
-  change (cl, pre_values c s cl, snd (step c s cl), observe n (fst (step c s cl))) with (model_item c n s cl).
-  rewrite (mon_step_model c n s cl Hc Hn Hi Hw). unfold model_item. cbn [snd].
-  apply IH; auto. apply step_inv_rate; auto. apply (wf_call_obs_wf n); exact Hw.
+  change (cl, pre_values c s cl, snd (step c s cl), observe c n (fst (step c s cl))) with (model_item c n s cl).
+  rewrite (g_obs _ _ _ _ Hg). rewrite (mon_step_model c n s cl Hc Hn Hi Hw), (mon_allow_model c n s st cl Hg). cbn [andb].
+  apply IH; auto.
+  - apply step_inv_rate; auto. apply (wf_call_obs_wf n); exact Hw.
+  - apply ghost_next; exact Hg.
 Qed.
 
 Lemma replay_model c n : forall cs s i, replay c n s (model_items c n s cs) i = 0%N.
@@ -282,16 +381,17 @@ Proof.
     + unfold diff. cbn [fst snd h_cfg h_ctor h_n h_now h_obs0]. rewrite Ec, eqb_rz_refl. cbn [negb].
       rewrite eqb_obs_refl. apply replay_model.
     + unfold monitor. cbn [fst snd h_cfg h_ctor h_n h_now h_obs0].
-      assert (Hm : mon_header {| h_cfg := c; h_n := n; h_now := now0; h_ctor := Ok d; h_obs0 := observe n (init now0) |} = true).
+      assert (Hm : mon_header {| h_cfg := c; h_n := n; h_now := now0; h_ctor := Ok d; h_obs0 := observe c n (init now0) |} = true).
       { unfold mon_header. cbn [h_cfg h_ctor h_obs0 observe o_sup o_ta].
         unfold construct in Ec. bsplit Ec u Eg. apply guard_ok in Eg.
         apply of_option_ok in Ec. unfold checked_add_u32 in Ec. destruct (in_u32 (c_adec c + c_off c)); inversion Ec.
         unfold total_supply, total_assets. cbn. rewrite Z.eqb_refl. cbn [andb]. lia. }
-      rewrite Hm. apply mon_from_model; auto. apply Inv_init.
+      rewrite Hm. apply mon_from_model; auto; [apply Inv_init|].
+      constructor; cbn [minit m_obs m_now m_alu m_slu h_obs0 h_now init now asset share]; auto.
   - f_equal. f_equal.
     + unfold diff. cbn [fst snd h_cfg h_ctor]. rewrite Ec. reflexivity.
     + unfold monitor. cbn [fst snd].
-      assert (Hm : mon_header {| h_cfg := c; h_n := n; h_now := now0; h_ctor := Fail; h_obs0 := observe n (init now0) |} = true).
+      assert (Hm : mon_header {| h_cfg := c; h_n := n; h_now := now0; h_ctor := Fail; h_obs0 := observe c n (init now0) |} = true).
       { unfold mon_header. cbn [h_cfg h_ctor]. unfold construct in Ec.
         destruct (c_max_off c <? c_off c) eqn:E1; [reflexivity|]. cbn [negb guard bind] in Ec.
         unfold checked_add_u32, in_u32 in Ec. cbn [orb].
@@ -306,42 +406,42 @@ Definition z3 : list Z := [0; 0; 0]%Z.
 Definition zz3 : list (list Z) := [z3; z3; z3].
 Definition hdr0 : header :=
   {| h_cfg := cfg0; h_n := 3; h_now := 10%Z; h_ctor := Ok 7%Z;
-     h_obs0 := {| o_ab := z3; o_sb := z3; o_sup := 0; o_ta := 0; o_aal := zz3; o_sal := zz3 |} |}.
-Definition funded : obs := {| o_ab := [0; 100; 0]%Z; o_sb := z3; o_sup := 0; o_ta := 0; o_aal := zz3; o_sal := zz3 |}.
+     h_obs0 := {| o_ab := z3; o_sb := z3; o_sup := 0; o_ta := 0; o_aal := zz3; o_sal := zz3; o_dec := 7; o_asset := 1 |} |}.
+Definition funded : obs := {| o_ab := [0; 100; 0]%Z; o_sb := z3; o_sup := 0; o_ta := 0; o_aal := zz3; o_sal := zz3; o_dec := 7; o_asset := 1 |}.
 Definition fund1 : item := (AMint 1 100, (Ok 0%Z, Ok 0%Z), Ok (0%Z, []), funded).
 (* donation of 9 then a deposit of 10: exact shares 10 * 1 / 10 = 1 *)
-Definition donated : obs := {| o_ab := [9; 100; 0]%Z; o_sb := z3; o_sup := 0; o_ta := 9; o_aal := zz3; o_sal := zz3 |}.
+Definition donated : obs := {| o_ab := [9; 100; 0]%Z; o_sb := z3; o_sup := 0; o_ta := 9; o_aal := zz3; o_sal := zz3; o_dec := 7; o_asset := 1 |}.
 Definition don : item := (AMint 0 9, (Ok 0%Z, Ok 0%Z), Ok (0%Z, []), donated).
 Definition good_dep : item :=
   (Deposit 10 1 1 1 [(1, AFull)], (Ok 1%Z, Ok MAX128), Ok (1%Z, [(0, 1, 1, 1, 10%Z, 1%Z)]),
-   {| o_ab := [19; 90; 0]%Z; o_sb := [0; 1; 0]%Z; o_sup := 1; o_ta := 19; o_aal := zz3; o_sal := zz3 |}).
+   {| o_ab := [19; 90; 0]%Z; o_sb := [0; 1; 0]%Z; o_sup := 1; o_ta := 19; o_aal := zz3; o_sal := zz3; o_dec := 7; o_asset := 1 |}).
 (* the same deposit rounded up in the user's favour: 2 shares for 10 assets at rate 10 *)
 Definition bad_dep_round_up : item :=
   (Deposit 10 1 1 1 [(1, AFull)], (Ok 2%Z, Ok MAX128), Ok (2%Z, [(0, 1, 1, 1, 10%Z, 2%Z)]),
-   {| o_ab := [19; 90; 0]%Z; o_sb := [0; 2; 0]%Z; o_sup := 2; o_ta := 19; o_aal := zz3; o_sal := zz3 |}).
+   {| o_ab := [19; 90; 0]%Z; o_sb := [0; 2; 0]%Z; o_sup := 2; o_ta := 19; o_aal := zz3; o_sal := zz3; o_dec := 7; o_asset := 1 |}).
 (* preview says 1, the operation mints 0 *)
 Definition bad_dep_preview : item :=
   (Deposit 10 1 1 1 [(1, AFull)], (Ok 1%Z, Ok MAX128), Ok (0%Z, [(0, 1, 1, 1, 10%Z, 0%Z)]),
-   {| o_ab := [19; 90; 0]%Z; o_sb := [0; 0; 0]%Z; o_sup := 0; o_ta := 19; o_aal := zz3; o_sal := zz3 |}).
+   {| o_ab := [19; 90; 0]%Z; o_sb := [0; 0; 0]%Z; o_sup := 0; o_ta := 19; o_aal := zz3; o_sal := zz3; o_dec := 7; o_asset := 1 |}).
 (* the shares go to somebody who was not named *)
 Definition bad_dep_party : item :=
   (Deposit 10 1 1 1 [(1, AFull)], (Ok 1%Z, Ok MAX128), Ok (1%Z, [(0, 1, 1, 1, 10%Z, 1%Z)]),
-   {| o_ab := [19; 90; 0]%Z; o_sb := [0; 0; 1]%Z; o_sup := 1; o_ta := 19; o_aal := zz3; o_sal := zz3 |}).
+   {| o_ab := [19; 90; 0]%Z; o_sb := [0; 0; 1]%Z; o_sup := 1; o_ta := 19; o_aal := zz3; o_sal := zz3; o_dec := 7; o_asset := 1 |}).
 (* nobody authorised the deposit *)
 Definition bad_dep_auth : item :=
   (Deposit 10 1 1 1 [], (Ok 1%Z, Ok MAX128), Ok (1%Z, [(0, 1, 1, 1, 10%Z, 1%Z)]),
-   {| o_ab := [19; 90; 0]%Z; o_sb := [0; 1; 0]%Z; o_sup := 1; o_ta := 19; o_aal := zz3; o_sal := zz3 |}).
+   {| o_ab := [19; 90; 0]%Z; o_sb := [0; 1; 0]%Z; o_sup := 1; o_ta := 19; o_aal := zz3; o_sal := zz3; o_dec := 7; o_asset := 1 |}).
 (* redeem of the share pays out 10 of 20 (exact 1 * 20 / 2 = 10) - fine; paying 11 lowers the rate *)
 Definition good_red : item :=
   (Redeem 1 1 1 1 [(1, ARoot)], (Ok 10%Z, Ok 1%Z), Ok (10%Z, [(1, 1, 1, 1, 10%Z, 1%Z)]),
-   {| o_ab := [9; 100; 0]%Z; o_sb := [0; 0; 0]%Z; o_sup := 0; o_ta := 9; o_aal := zz3; o_sal := zz3 |}).
+   {| o_ab := [9; 100; 0]%Z; o_sb := [0; 0; 0]%Z; o_sup := 0; o_ta := 9; o_aal := zz3; o_sal := zz3; o_dec := 7; o_asset := 1 |}).
 Definition bad_red_generous : item :=
   (Redeem 1 1 1 1 [(1, ARoot)], (Ok 11%Z, Ok 1%Z), Ok (11%Z, [(1, 1, 1, 1, 11%Z, 1%Z)]),
-   {| o_ab := [8; 101; 0]%Z; o_sb := [0; 0; 0]%Z; o_sup := 0; o_ta := 8; o_aal := zz3; o_sal := zz3 |}).
+   {| o_ab := [8; 101; 0]%Z; o_sb := [0; 0; 0]%Z; o_sup := 0; o_ta := 8; o_aal := zz3; o_sal := zz3; o_dec := 7; o_asset := 1 |}).
 (* a failing call that leaves a trace *)
 Definition bad_fail_trace : item :=
   (Redeem 5 1 1 1 [(1, ARoot)], (Ok 50%Z, Ok 1%Z), Fail,
-   {| o_ab := [19; 90; 0]%Z; o_sb := [0; 0; 0]%Z; o_sup := 0; o_ta := 19; o_aal := zz3; o_sal := zz3 |}).
+   {| o_ab := [19; 90; 0]%Z; o_sb := [0; 0; 0]%Z; o_sup := 0; o_ta := 19; o_aal := zz3; o_sal := zz3; o_dec := 7; o_asset := 1 |}).
 
 Example monitor_accepts_good : monitor (hdr0, [fund1; don; good_dep; good_red]) = 0.
 Proof. vm_compute. reflexivity. Qed.
@@ -361,4 +461,52 @@ Proof. vm_compute. reflexivity. Qed.
 Example monitor_rejects_offset_11 :
   monitor ({| h_cfg := {| c_off := 11; c_max_off := 10; c_adec := 7; c_max_ttl := 1000 |}; h_n := 3; h_now := 10%Z;
               h_ctor := Ok 18%Z; h_obs0 := h_obs0 hdr0 |}, []) = 1.
+Proof. vm_compute. reflexivity. Qed.
+
+(* state that lapses although no call changed it is rejected: after one long Advance ... *)
+Local Open Scope N_scope.
+Definition after_dep : obs :=
+  {| o_ab := [19; 90; 0]%Z; o_sb := [0; 1; 0]%Z; o_sup := 1; o_ta := 19; o_aal := zz3; o_sal := zz3; o_dec := 7; o_asset := 1 |}.
+Definition adv_ok : item := (Advance 600000, (Ok 0%Z, Ok 0%Z), Ok (0%Z, []), after_dep).
+(* ... a share balance is gone *)
+Definition adv_lost_balance : item := (Advance 600000, (Ok 0%Z, Ok 0%Z), Ok (0%Z, []),
+  {| o_ab := [19; 90; 0]%Z; o_sb := [0; 0; 0]%Z; o_sup := 1; o_ta := 19; o_aal := zz3; o_sal := zz3; o_dec := 7; o_asset := 1 |}).
+(* ... the total supply reads 0 *)
+Definition adv_lost_supply : item := (Advance 600000, (Ok 0%Z, Ok 0%Z), Ok (0%Z, []),
+  {| o_ab := [19; 90; 0]%Z; o_sb := [0; 1; 0]%Z; o_sup := 0; o_ta := 19; o_aal := zz3; o_sal := zz3; o_dec := 7; o_asset := 1 |}).
+(* ... the vault forgot its asset (every getter that needs it traps: -1) *)
+Definition adv_lost_asset : item := (Advance 600000, (Ok 0%Z, Ok 0%Z), Ok (0%Z, []),
+  {| o_ab := [19; 90; 0]%Z; o_sb := [0; 1; 0]%Z; o_sup := 1; o_ta := -1; o_aal := zz3; o_sal := zz3; o_dec := -1; o_asset := -1 |}).
+(* ... the decimals offset fell back to 0 (vault with offset 3: decimals 10 -> 7) *)
+Definition hdr3 : header :=
+  {| h_cfg := {| c_off := 3; c_max_off := 10; c_adec := 7; c_max_ttl := 1000 |}; h_n := 3; h_now := 10%Z; h_ctor := Ok 10%Z;
+     h_obs0 := {| o_ab := z3; o_sb := z3; o_sup := 0; o_ta := 0; o_aal := zz3; o_sal := zz3; o_dec := 10; o_asset := 1 |} |}.
+Definition adv_lost_offset : item := (Advance 600000, (Ok 0%Z, Ok 0%Z), Ok (0%Z, []),
+  {| o_ab := z3; o_sb := z3; o_sup := 0; o_ta := 0; o_aal := zz3; o_sal := zz3; o_dec := 7; o_asset := 1 |}).
+(* an allowance approved until ledger 500 must still be there at ledger 110, and be gone at 501 *)
+Definition al3 : list (list Z) := [z3; [0; 0; 40]%Z; z3].
+Definition appr : item := (AApprove 1 2 40 500 [(1, ARoot)], (Ok 0%Z, Ok 0%Z), Ok (0%Z, []),
+  {| o_ab := [0; 100; 0]%Z; o_sb := z3; o_sup := 0; o_ta := 0; o_aal := al3; o_sal := zz3; o_dec := 7; o_asset := 1 |}).
+Definition adv_keep : item := (Advance 100, (Ok 0%Z, Ok 0%Z), Ok (0%Z, []),
+  {| o_ab := [0; 100; 0]%Z; o_sb := z3; o_sup := 0; o_ta := 0; o_aal := al3; o_sal := zz3; o_dec := 7; o_asset := 1 |}).
+Definition adv_lapsed_early : item := (Advance 100, (Ok 0%Z, Ok 0%Z), Ok (0%Z, []), funded).
+Definition adv_expire : item := (Advance 391, (Ok 0%Z, Ok 0%Z), Ok (0%Z, []), funded).
+Definition adv_survives_expiry : item := (Advance 391, (Ok 0%Z, Ok 0%Z), Ok (0%Z, []),
+  {| o_ab := [0; 100; 0]%Z; o_sb := z3; o_sup := 0; o_ta := 0; o_aal := al3; o_sal := zz3; o_dec := 7; o_asset := 1 |}).
+
+Example monitor_accepts_long_gap : monitor (hdr0, [fund1; don; good_dep; adv_ok]) = 0.
+Proof. vm_compute. reflexivity. Qed.
+Example monitor_rejects_lapsed_balance : monitor (hdr0, [fund1; don; good_dep; adv_lost_balance]) = 4.
+Proof. vm_compute. reflexivity. Qed.
+Example monitor_rejects_lapsed_supply : monitor (hdr0, [fund1; don; good_dep; adv_lost_supply]) = 4.
+Proof. vm_compute. reflexivity. Qed.
+Example monitor_rejects_lapsed_asset_address : monitor (hdr0, [fund1; don; good_dep; adv_lost_asset]) = 4.
+Proof. vm_compute. reflexivity. Qed.
+Example monitor_rejects_lapsed_offset : monitor (hdr3, [adv_lost_offset]) = 1.
+Proof. vm_compute. reflexivity. Qed.
+Example monitor_accepts_allowance_life : monitor (hdr0, [fund1; appr; adv_keep; adv_expire]) = 0.
+Proof. vm_compute. reflexivity. Qed.
+Example monitor_rejects_allowance_lapsed_early : monitor (hdr0, [fund1; appr; adv_lapsed_early]) = 3.
+Proof. vm_compute. reflexivity. Qed.
+Example monitor_rejects_allowance_outliving : monitor (hdr0, [fund1; appr; adv_keep; adv_survives_expiry]) = 4.
 Proof. vm_compute. reflexivity. Qed.
